@@ -38,6 +38,10 @@ class Service(object):
     self._rec('add', a, b)
     return a + b
 
+  def tail(self, s):
+    self._rec('tail', s)
+    return s.split(':', 1)[1] if ':' in s else ''     # may well be the empty string
+
   def lock(self, key, timeout):
     self._rec('lock', key, timeout)
     return 'locked:%s:%r' % (key, timeout)
